@@ -12,7 +12,11 @@ from .. import build, irparse
 from ..ctx import load_spec
 from ..report import Result, Broken
 
-LANGS = {'c99': ['-x', 'c', '-std=c99'], 'c++17': ['-x', 'c++', '-std=c++17']}
+LANGS = {'c99': ['-x', 'c', '-std=c99'], 'gnu17': ['-x', 'c', '-std=gnu17'], 'c++17': ['-x', 'c++', '-std=c++17']}
+
+
+def is_c(lang):
+    return not lang.startswith('c++')
 COMMON = ['-fsyntax-only', '-ferror-limit=0', '-Werror=macro-redefined', '-Wno-zero-length-array', '-Wno-c11-extensions',
           '-Wno-c99-extensions', '-Wno-extern-c-compat']
 
@@ -188,15 +192,39 @@ def alone_facts(hdr, workdir):
             return None, 'C++ kind unit for %s: %s' % (hdr, err[-300:])
         absent |= gone
         names = [n for n in names if n not in gone]
-    return {'facts': facts, 'kinds': kinds, 'cxx_absent': absent}, None
+    # other C dialects: a name may exist in C99 only (a fallback declaration selected by __STDC_VERSION__)
+    absent_by_lang = {'c++17': absent}
+    for lang in LANGS:
+        if lang in ('c99', 'c++17'):
+            continue
+        gone_all = set()
+        names = [sym for sym, (kind, v) in facts.items() if kind in ('enum', 'macro')]
+        for attempt in range(6):
+            if not names:
+                break
+            lines = ['#include <stddef.h>', '#include "%s"' % hdr]
+            for n in names:
+                lines.append('const long long verif_q_%s = (long long)(%s);' % (n, n))
+            rc, out, err = clang(LANGS[lang] + ['-fsyntax-only', '-ferror-limit=0', '-Wno-everything', '-'] + inc_args(),
+                                 '\n'.join(lines) + '\n')
+            if rc == 0:
+                break
+            gone = set(m.group(1) for m in re.finditer(r"error: use of undeclared identifier '(\w+)'", err)) & set(names)
+            if not gone:
+                return None, '%s probe unit for %s: %s' % (lang, hdr, err[-300:])
+            gone_all |= gone
+            names = [n for n in names if n not in gone]
+        absent_by_lang[lang] = gone_all
+    return {'facts': facts, 'kinds': kinds, 'cxx_absent': absent, 'absent': absent_by_lang}, None
 
 
-def assert_lines(hdr, facts, lang, kinds=None, cxx_absent=()):
-    kw = '_Static_assert' if lang == 'c99' else 'static_assert'
+def assert_lines(hdr, facts, lang, kinds=None, absent=None):
+    kw = '_Static_assert' if is_c(lang) else 'static_assert'
     out = []
-    if lang != 'c99' and cxx_absent:
-        facts = {k: v for k, v in facts.items() if k not in cxx_absent}
-    if lang != 'c99' and kinds:
+    gone = (absent or {}).get(lang)
+    if gone:
+        facts = {k: v for k, v in facts.items() if k not in gone}
+    if not is_c(lang) and kinds:
         for sym, k in sorted(kinds.items()):
             out.append('static_assert((std::is_enum<decltype(%s)>::value ? 1 : 0) == %d, "%s|%s");' % (sym, k, hdr, sym))
     for sym, (kind, v) in sorted(facts.items()):
@@ -273,10 +301,10 @@ def run(tier, res, seed):
             if a == b:
                 continue
             for lang in LANGS:
-                text = '#include <stddef.h>\n' + ('#include <type_traits>\n' if lang != 'c99' else '') + \
+                text = '#include <stddef.h>\n' + ('#include <type_traits>\n' if not is_c(lang) else '') + \
                     '#include "%s"\n#include "%s"\n' % (a, b) + UNDEF_SA
-                text += '\n'.join(assert_lines(a, alone[a]['facts'], lang, alone[a]['kinds'], alone[a]['cxx_absent']) +
-                                  assert_lines(b, alone[b]['facts'], lang, alone[b]['kinds'], alone[b]['cxx_absent'])) + '\n'
+                text += '\n'.join(assert_lines(a, alone[a]['facts'], lang, alone[a]['kinds'], alone[a]['absent']) +
+                                  assert_lines(b, alone[b]['facts'], lang, alone[b]['kinds'], alone[b]['absent'])) + '\n'
                 jobs.append(('%s>%s' % (a, b), lang, text))
     pair_syms = set()
     seen = set()
@@ -309,10 +337,10 @@ def run(tier, res, seed):
     jobs = []
     for oname, o in orders:
         for lang in LANGS:
-            text = '#include <stddef.h>\n' + ('#include <type_traits>\n' if lang != 'c99' else '') + \
+            text = '#include <stddef.h>\n' + ('#include <type_traits>\n' if not is_c(lang) else '') + \
                 ''.join('#include "%s"\n' % h for h in o) + UNDEF_SA
             for h in o:
-                text += '\n'.join(assert_lines(h, alone[h]['facts'], lang, alone[h]['kinds'], alone[h]['cxx_absent'])) + '\n'
+                text += '\n'.join(assert_lines(h, alone[h]['facts'], lang, alone[h]['kinds'], alone[h]['absent'])) + '\n'
             jobs.append((oname, lang, text))
     with ThreadPoolExecutor(16) as ex:
         for name, lang, rc, err in ex.map(compile_unit, jobs):
